@@ -275,7 +275,8 @@ class Tr:
                         or ast.unparse(e.orelse) != "self.ratio[treatment] / self.ratio[control]":
                     raise Unsupported("ratio dispatch")
                 return ("(match self.ratio with | RatioSpec.scalar x => x | RatioSpec.mapping rt rc => (rt / rc))")
-            if isinstance(t, (ast.Compare, ast.BoolOp, ast.UnaryOp)):
+            if isinstance(t, (ast.Compare, ast.BoolOp, ast.UnaryOp)) or (
+                    isinstance(t, ast.Call) and self.dotted(t.func) == "math.isnan"):
                 return f"(if {self.cond(t)} then {self.ex(e.body)} else {self.ex(e.orelse)})"
             raise Unsupported("ifexp")
         if isinstance(e, ast.Call):
@@ -316,6 +317,8 @@ class Tr:
                 return f"(P.sqrt {self.ex(e.args[0])})"
             if dotted == "math.exp":
                 return f"(P.exp {self.ex(e.args[0])})"
+            if dotted == "math.isnan" and len(e.args) == 1:
+                return f"(isNaN {self.ex(e.args[0])})"     # the value rendering is over a field: never NaN
             if dotted == "scipy.stats.t":
                 return f"(P.t {self.kw(e, 'df')})"
             if dotted == "scipy.stats.nct":
@@ -423,6 +426,8 @@ class Tr:
 
     def cond(self, t: ast.expr) -> str:
         if isinstance(t, ast.Attribute) and self.typ(t) == "Bool":
+            return f"{self.ex(t)} = true"
+        if isinstance(t, ast.Call) and self.dotted(t.func) == "math.isnan":
             return f"{self.ex(t)} = true"
         if isinstance(t, ast.UnaryOp) and isinstance(t.op, ast.Not):
             return f"¬ ({self.cond(t.operand)})"
@@ -613,6 +618,7 @@ def generate(src: Path) -> dict[str, str]:
         files[mod] = hdr + "\n".join(parts) + "\n" + gl + "end Gen\n"
     files["Utils"] = generate_utils(src)
     files["Config"] = generate_config(src)
+    files["Solve"] = generate_solve(src)
     return files
 
 
@@ -1019,6 +1025,119 @@ def generate_config(src: Path) -> str:
             f"restoreClear := {b(restore_clear)}, getCopies := {b(copies)} }}\n\n"
             "def configDefaults : List (String × PyVal) := [\n"
             + ",\n".join(f"  (\"{k}\", {v})" for k, v in defaults) + "\n]\n\nend Gen\n")
+
+
+# ------------------------------------------------------------------------------------------
+# _solve_power_from_stats / _find_boundary  ->  Gen/Solve.lean : the bracket set-up
+# ------------------------------------------------------------------------------------------
+def _none_pattern(t: ast.expr) -> dict[str, bool] | None:
+    """`a is None and b is not None and …` -> {a: True (is None), b: False}"""
+    vals = t.values if isinstance(t, ast.BoolOp) and isinstance(t.op, ast.And) else [t]
+    out = {}
+    for v in vals:
+        if not (isinstance(v, ast.Compare) and isinstance(v.left, ast.Name) and len(v.ops) == 1
+                and isinstance(v.comparators[0], ast.Constant) and v.comparators[0].value is None):
+            return None
+        out[v.left.id] = isinstance(v.ops[0], ast.Is)
+    return out
+
+
+def generate_solve(src: Path) -> str:
+    mods = {"mean": ast.parse((src / "metrics" / "mean.py").read_text())}
+    fn = find(mods, "mean.RatioOfMeans._solve_power_from_stats")
+    fb = find(mods, "mean._find_boundary")
+    consts = {n.targets[0].id: n.value.value for n in mods["mean"].body
+              if isinstance(n, ast.Assign) and isinstance(n.targets[0], ast.Name)
+              and isinstance(n.value, ast.Constant) and isinstance(n.value.value, int)}
+    if "MAX_ITER" not in consts:
+        raise Unsupported("MAX_ITER not found")
+    sig = dict(lean="x", params=[("self", f"RatioCfg {A}"), ("sample_var", A), ("sample_count", A), ("effect_size", A),
+                                 ("power", A)], ret=A, prims=True, mod="Solve")
+    branches = {}
+    for st in fn.body:
+        if not isinstance(st, ast.If):
+            continue
+        pat = _none_pattern(st.test)
+        if pat is None:
+            raise Unsupported("_solve_power_from_stats: branch condition")
+        key = tuple(sorted(k for k, is_none in pat.items() if is_none))
+        branches[key] = st
+    if set(branches) != {("power",), ("effect_size",), ("sample_count",)}:
+        raise Unsupported(f"_solve_power_from_stats: branches {sorted(branches)}")
+    # final statement: brentq(fn, lower_bound, upper_bound, maxiter=MAX_ITER)
+    last = fn.body[-1]
+    if not (isinstance(last, ast.Return) and isinstance(last.value, ast.Call)
+            and ast.unparse(last.value.func) == "scipy.optimize.brentq"
+            and [ast.unparse(a) for a in last.value.args] == ["fn", "lower_bound", "upper_bound"]
+            and [(k.arg, ast.unparse(k.value)) for k in last.value.keywords] == [("maxiter", "MAX_ITER")]):
+        raise Unsupported("_solve_power_from_stats: final brentq call")
+
+    def closure_ok(body, varying):
+        fdefs = [x for x in body if isinstance(x, ast.FunctionDef)]
+        if len(fdefs) != 1 or fdefs[0].name != "fn" or len(fdefs[0].body) != 1:
+            raise Unsupported("closure fn")
+        want = {"sample_var": "sample_var", "sample_count": "sample_count", "effect_size": "effect_size"}
+        want[varying] = "x"
+        r = fdefs[0].body[0]
+        exp = ("power - self._power_from_stats(" + ", ".join(f"{k}={v}" for k, v in want.items()) + ")")
+        if not (isinstance(r, ast.Return) and ast.unparse(r.value) == exp):
+            raise Unsupported(f"closure fn body: {ast.unparse(r)}")
+
+    def lets(body, tr):
+        out = ""
+        for st in body:
+            if isinstance(st, ast.FunctionDef):
+                continue
+            if isinstance(st, ast.Assign) and len(st.targets) == 1 and isinstance(st.targets[0], ast.Name):
+                if is_call_to(st.value, "_find_boundary"):
+                    out += f"  let {st.targets[0].id}_init := {tr.ex(st.value.args[1])}\n"
+                    if ast.unparse(st.value.args[0]) != "fn" or len(st.value.args) != 2 or st.value.keywords:
+                        raise Unsupported("_find_boundary call")
+                else:
+                    out += f"  let {st.targets[0].id} := {tr.ex(st.value)}\n"
+            elif isinstance(st, ast.Assign) and ast.unparse(st) == "lower_bound, upper_bound = sorted((0, other_bound))":
+                pass
+            else:
+                raise Unsupported(f"_solve_power_from_stats statement: {ast.unparse(st)[:60]}")
+        return out
+
+    class T(Tr):
+        def __init__(self):
+            self.key, self.sig = "mean.solve", sig
+            self.types = dict(sig["params"])
+            self.none, self.some, self.in_aggr, self.guards, self.locals = set(), set(), False, [], set()
+
+    eb = branches[("effect_size",)]
+    nb = branches[("sample_count",)]
+    closure_ok(eb.body, "effect_size")
+    closure_ok(nb.body, "sample_count")
+    e_lets = lets(eb.body, T())
+    n_lets = lets(nb.body, T())
+    if "other_bound_init" not in e_lets or "upper_bound_init" not in n_lets or "lower_bound :=" not in n_lets:
+        raise Unsupported("_solve_power_from_stats: bracket variables")
+    # _find_boundary: b = init; i = 0; while fn(b) > 0: b *= mult; i += 1; if i == MAX_ITER: raise
+    exp_fb = ("b = init\ni = 0\nwhile fn(b) > 0:\n    b *= mult\n    i += 1\n    if i == MAX_ITER:\n"
+              "        raise RuntimeError('Cannot find parameter boundaries. Maximum number of iterations is reached.')\n"
+              "return b")
+    body_src = "\n".join(ast.unparse(x) for x in fb.body)
+    if body_src != exp_fb:
+        raise Unsupported("_find_boundary body changed")
+    mult = fb.args.defaults[-1]
+    if not (isinstance(mult, ast.Constant) and isinstance(mult.value, int)):
+        raise Unsupported("_find_boundary mult default")
+    return ("-- GENERATED by harness/translate.py from /repo/src/tea_tasting/metrics/mean.py — do not edit.\n"
+            "import TeaTasting.Gen.Mean\n\n"
+            f"variable {{{A} : Type}} [Field {A}] [LinearOrder {A}] [IsStrictOrderedRing {A}]\n\nnamespace Gen\n\n"
+            f"-- mean.MAX_ITER, default `mult` of mean._find_boundary (line {fb.lineno})\n"
+            f"def MAX_ITER : ℕ := {consts['MAX_ITER']}\n"
+            f"def boundaryMult : {A} := ({mult.value} : {A})\n\n"
+            f"-- mean.RatioOfMeans._solve_power_from_stats (line {fn.lineno}): solving for the effect size —\n"
+            "-- the start value handed to _find_boundary; the bracket is sorted((0, other_bound))\n"
+            f"def RatioOfMeans.solve_effect_init (P : Prims {A}) (self : RatioCfg {A}) (sample_var : {A}) "
+            f"(sample_count : {A}) : {A} :=\n" + e_lets + "  other_bound_init\n\n"
+            "-- … solving for n_obs: (lower end of the bracket, start value handed to _find_boundary)\n"
+            f"def RatioOfMeans.solve_n_bracket (self : RatioCfg {A}) : {A} × {A} :=\n" + n_lets
+            + "  (lower_bound, upper_bound_init)\n\nend Gen\n")
 
 
 def write_if_changed(path: Path, text: str) -> bool:
